@@ -129,6 +129,14 @@ def run(prop: str, tier: str) -> int:
                     scripts.append(mid + [("init", B, 1), ("begin", B, "alloc0"), ("step", B), ("zombie", A)] + tail)
                     scripts.append(mid + [("zombie", A), ("init", B, 1), ("begin", B, "alloc0"), ("step", B)] + tail)
                     scripts.append(mid + [("init", B, 2), ("begin", B, "alloc1"), ("step", B), ("step", B), ("begin", B, "alloc0"), ("step", B), ("zombie", A)] + tail)
+        # ... and while blocked waiting for entanglement: request outstanding, response waiting for its virtual qubit
+        for A, B in ((0, 1), (1, 0)):
+            tailB = [("init", B, 2), ("begin", B, "alloc0"), ("step", B), ("step", B), ("begin", B, "alloc1"), ("step", B), ("step", B), ("zombie", A),
+                     ("begin", B, "free0"), ("step", B), ("step", B), ("stop", B), ("init", A, 2), ("begin", A, "keep1"), ("step", A), ("step", A),
+                     ("deliver", A, "alloc"), ("step", A), ("step", A), ("stop", A)]
+            scripts.append([("init", A, 2), ("begin", A, "keep1"), ("step", A), ("step", A), ("step", A), ("abortwait", A)] + tailB)
+            scripts.append([("init", A, 2), ("begin", A, "alloc1"), ("step", A), ("step", A), ("begin", A, "keepfree"), ("step", A), ("step", A),
+                            ("deliver", A, "alloc"), ("abort", A)] + tailB)
         directed = [rig.controller_script(sc) for sc in scripts]
         if not all(any(e["a"] == "abort" for e in t) and any(e["a"] == "zombie" for e in t) for t in directed):
             V.notes.append("qfree has no suspension point in this tree: the stop-inside-an-instruction schedules degenerate to ordinary steps")
@@ -145,8 +153,12 @@ def run(prop: str, tier: str) -> int:
             t = rows[i - 1]["events"]
             ev = t[v[3] - 1] if 0 < v[3] <= len(t) else {}
             hist = [[e["a"], e.get("app"), e.get("p", e.get("n"))] for e in t[: v[3]]]
-            V.add("history-leaves-specification" if v[4] != "invariant" else "property-violated-on-real-history",
-                  {"what": v[1], "action": ev.get("a", ""), "program": ev.get("p", "")},
+            stale = any(e.get("a") == "abort" and e.get("outstanding") for e in t[: v[3]])
+            V.add("history-leaves-specification" if v[4] != "invariant" or stale else "property-violated-on-real-history",
+                  # (once an application was stopped with an entanglement request outstanding the real controller keeps
+                  #  stale bookkeeping - a recorded finding - and whatever goes wrong later in THAT history is the same failure)
+                  ({"after_stop_with_outstanding_request": True} if stale
+                   else {"what": v[1], "action": ev.get("a", ""), "program": ev.get("p", "")}),
                   f"after {len(hist)} operations ending in {hist[-3:]}: {v[1]} {ev.get('err', '')}; real post-state {json.dumps(ev.get('post'))[:500]}",
                   {"history": hist})
         nontriv = {json.dumps([[e["a"], e.get("app"), e.get("p", e.get("n"))] for e in t]) for t in traces
